@@ -673,13 +673,19 @@ def owned_rows_rule(ctx, rid="R20.13"):
     # ---- energy
     fE = simu.methods["Calc_Energy"]
     A, x = sym("a"), vec("x")
-    for label, dofs, owned in (("explicit dofs [1, 3]", XArray((2,), [1, 3], "i"), [0, 2]), ("default dofs (owned = [0, 2])", None, [0, 2])):
+    def enlarged(Mx, extra=2):
+        """the operator as assembled when Lagrange conditions exist: `extra` empty multiplier rows and columns after the dofs"""
+        m = n + extra
+        return XArray((m, m), [Mx[i, j] if i < n and j < n else Q(0) for i in range(m) for j in range(m)])
+
+    for label, dofs, owned, Aop in (("explicit dofs [1, 3]", XArray((2,), [1, 3], "i"), [0, 2], A), ("default dofs (owned = [0, 2])", None, [0, 2], A),
+                                    ("operator enlarged by two Lagrange multipliers, dofs [1, 3]", XArray((2,), [1, 3], "i"), [0, 2], enlarged(A))):
         r.instance(fn=fE.qualname)
         I = Interp(repo)
         I.call_hook = hook
         obj = XObj(simu, {"Get_dofs": lambda pt=None: XArray((len(owned),), list(owned), "i")})
         try:
-            out = I.call_function(fE, [A, x, dofs], self_obj=obj)
+            out = I.call_function(fE, [Aop, x, dofs], self_obj=obj)
         except XRaise as e:
             r.fail(fE.qualname, f"energy:{label}", fE.file, fE.lineno, "Calc_Energy", f"{label}: raises {e}")
             continue
@@ -722,17 +728,21 @@ def owned_rows_rule(ctx, rid="R20.13"):
     if algo_ci is None:
         algo_ci = next(c for c in repo.all_classes() if c.name == "AlgoType")
     mem = repo.enum_members(algo_ci.qualname)
-    for algo, parts in (("elliptic", "K u"), ("parabolic", "K u + C v"), ("newmark", "K u + C v + M a"), ("midpoint", "K u + C v + M a")):
+    for algo, parts in (("elliptic", "K u"), ("parabolic", "K u + C v"), ("newmark", "K u + C v + M a"), ("midpoint", "K u + C v + M a"), ("elliptic+lagrange", "K u"), ("newmark+lagrange", "K u + C v + M a")):
+        lag = algo.endswith("+lagrange")
+        algo = algo.split("+")[0]
         for mpi in (1, 2):
             for label, dofs, owned in (("default dofs", None, [1, 2, 3]), ("requested [0, 1, 3], owned [1, 2, 3]", XArray((3,), [0, 1, 3], "i"), [1, 2, 3])):
+                if lag and (mpi > 1 or dofs is None):
+                    continue
                 r.instance(fn=fR.qualname)
                 I = Interp(repo, extra_builtins={"MPI_SIZE": mpi})
                 I.call_hook = hook
                 obj = XObj(simu, {
                     "Get_dofs": lambda pt=None: XArray((len(owned),), list(owned), "i"), "algo": EnumVal(algo_ci, algo, mem[algo]), "problemType": Opaque("pt"), "isNonLinear": False,
-                    "Get_K_C_M_F": lambda pt=None: (K, C, M, Opaque("F")), "_Get_u_n": lambda pt=None, **k: u, "_Get_v_n": lambda pt=None, **k: v, "_Get_a_n": lambda pt=None, **k: a,
+                    "Get_K_C_M_F": (lambda pt=None: (enlarged(K), enlarged(C), enlarged(M), Opaque("F"))) if lag else (lambda pt=None: (K, C, M, Opaque("F"))), "_Get_u_n": lambda pt=None, **k: u, "_Get_v_n": lambda pt=None, **k: v, "_Get_a_n": lambda pt=None, **k: a,
                 })
-                tag = f"{algo}, MPI_SIZE = {mpi}, {label}"
+                tag = f"{algo}{', operators enlarged by two Lagrange multipliers' if lag else ''}, MPI_SIZE = {mpi}, {label}"
                 try:
                     out = I.call_function(fR, [dofs, Opaque("pt")], self_obj=obj)
                 except XRaise as e:
@@ -759,4 +769,4 @@ def owned_rows_rule(ctx, rid="R20.13"):
                 if okr and val.shape == (len(want),) and all(is_zero(Poly.of(g) - w) for g, w in zip(val.data, want)):
                     r.ok(f"Calc_Reaction, {tag}: {parts} on rows {rows}")
                 else:
-                    r.fail(fR.qualname, f"reaction:{algo}:{mpi}:{'default' if dofs is None else 'requested'}", fR.file, fR.lineno, "Calc_Reaction", f"{tag}: the result is {'' if okr else 'not '}{'reduced over ranks' if mpi > 1 else 'returned per rank'} and is not ({parts}) on the requested owned rows {rows} (zero elsewhere): rows of the ghost layer are added once per rank, or a term of the scheme is missing")
+                    r.fail(fR.qualname, f"reaction:{algo}{'+lagrange' if lag else ''}:{mpi}:{'default' if dofs is None else 'requested'}", fR.file, fR.lineno, "Calc_Reaction", f"{tag}: the result is {'' if okr else 'not '}{'reduced over ranks' if mpi > 1 else 'returned per rank'} and is not ({parts}) on the requested owned rows {rows} (zero elsewhere): rows of the ghost layer are added once per rank, or a term of the scheme is missing")
